@@ -557,6 +557,16 @@ def register(chk):
             chk.add("%s:Fq::random" % cfg, c10_sampling.ob_fp_random, "Fq", cfg)
 
 
+def include_in(chk):
+    """this check's obligations registered inside a check of a layer above (framework.Check.include)"""
+    prog()
+    if chk.tier == "thorough":
+        prog("P64")
+        prog("P32")
+    chk.replayer = replay_c10
+    register(chk)
+
+
 def main(argv=None):
     chk = Check("C10", "proof", argv)
     chk.replayer = replay_c10
@@ -582,6 +592,9 @@ def main(argv=None):
                    "T10: #E(Fq) = h1 r, #E'(Fq2) = h2 r with r prime, so [h]P lies in the order-r subgroup", "z3"]
     chk.assumptions = ["field operands are canonical (class invariant of Fq/Fq2, C02/C04)",
                        "the random source writes exactly the n bytes it is asked for (caller's contract); its bytes are unconstrained"]
+    # lower layers whose specifications this check relies on: their obligations are part of this check's claim (framework.Check.include)
+    for dep in ['C06', 'C02', 'C04', 'C05']:
+        chk.include(dep)
     chk.run()
     chk.finish()
 
